@@ -278,6 +278,11 @@ def wrappers(chk, P):
                "C07.O7|factory|%s|deriv" % name)
         dcheck(chk, "C07.O7", "potentialforms.%s(...).deriv2 is the derivative of its deriv" % name, d1, d2, site,
                "C07.O7|factory|%s|deriv2" % name)
+    tableform_derivs(chk, P, "C07.O7")
+
+
+def tableform_derivs(chk, P, rule):
+    r = Num(ep.sym("r"))
     # table form: derivative objects
     J = F.make_interp(P)
     tf = P.cls("atsim.potentials.tableforms", "Cubic_Spline_Table_Form")
@@ -287,17 +292,17 @@ def wrappers(chk, P):
     d2 = inst.attrs.get("_deriv2")
     site = tf.lookup("__init__").site()
     ok = isinstance(interp, Opaque) and isinstance(d, Opaque) and d.path == ("call", ("attr", interp.path, "derivative"), ())
-    chk.ob("C07.O7", "table form: _deriv = interpolant.derivative() (first derivative, no order argument)", ok, site=site, found=d,
-           expect="interpolant.derivative()", key="C07.O7|tableform|deriv")
+    chk.ob(rule, "table form: _deriv = interpolant.derivative() (first derivative, no order argument)", ok, site=site, found=d,
+           expect="interpolant.derivative()", key=rule + "|tableform|deriv")
     ok2 = isinstance(d, Opaque) and isinstance(d2, Opaque) and d2.path == ("call", ("attr", d.path, "derivative"), ())
-    chk.ob("C07.O7", "table form: _deriv2 = _deriv.derivative() (first derivative of the first derivative)", ok2, site=site, found=d2,
-           expect="_deriv.derivative()", key="C07.O7|tableform|deriv2")
+    chk.ob(rule, "table form: _deriv2 = _deriv.derivative() (first derivative of the first derivative)", ok2, site=site, found=d2,
+           expect="_deriv.derivative()", key=rule + "|tableform|deriv2")
     x = Num(ep.sym("x"))
     for meth, obj in (("__call__", interp), ("deriv", d), ("deriv2", d2)):
         v = J.call(J.getattr(inst, meth), [x], {})
         ok = isinstance(obj, Opaque) and isinstance(v, Num) and ep.equal(v.rf, ep.app(obj.path, [ep.sym("x")]))[0]
-        chk.ob("C07.O7", "table form %s evaluates its own spline object at x" % meth, ok, site=tf.lookup(meth).site(), found=v,
-               expect="%s(x)" % (obj,), key="C07.O7|tableform|%s-eval" % meth)
+        chk.ob(rule, "table form %s evaluates its own spline object at x" % meth, ok, site=tf.lookup(meth).site(), found=v,
+               expect="%s(x)" % (obj,), key=rule + "|tableform|%s-eval" % meth)
 
 
 def force(chk, P):
